@@ -36,7 +36,33 @@ META = dict(
          "explicit recursion-depth bound |g|(R+3)+R+2 only for grammars in which every cycle passes through a "
          "custom-named, extraction-worthy node - stated with a rank function, read by ranked_cycle_has_cut; the "
          "full statement also covers unnamed cycles, where it is false - diverges_of_unnamed_loop proves "
-         "non-termination for EVERY grammar whose root lies on a cycle of unnamed elements). links_resolve, no_empty_placeholder, root_first, tokens_covered are NOT proved in "
+         "non-termination for EVERY grammar whose root lies on a cycle of unnamed elements). "
+         "links_resolve_partial (PPProofs/Props/C20Links.lean): for ALL grammars in which no element has the custom "
+         "name '...' (the registered dangling-link shape, decidable predicate noEllipsisName on the node table), all "
+         "options, all roots and every fuel at which the model returns, every NonTerminal of every returned diagram "
+         "names a returned diagram - proved by an invariant over the whole conversion (every NonTerminal carries the "
+         "custom name of an extracted or pending element; a returning call leaves no new pending element); partial "
+         "only in that hypothesis, which dangling_link_witness shows is needed. root_first_partial: for ALL grammars, "
+         "options and returning fuels, if the root is custom-named and worth extracting, shown, and its custom name "
+         "is carried by no other element and is not '...' (decidable rootFirstHyp), the output is non-empty and its "
+         "first diagram is the root's (invariant: the root is registered exactly once with index 1, every other "
+         "element gets an index >= 2, diagram keys are distinct); partial: unnamed roots off every cycle and "
+         "custom-named roots with only leaf children are first too but are not covered; the two registered "
+         "root witnesses violate the hypothesis. no_empty_placeholder_partial: for ALL grammars in which every "
+         "element draws something (decidable drawsAll: shown, children exist, dispatch creates a partial, a one-item "
+         "wrapper has a child - excludes the registered Opt(Empty()) shape), all options and returning fuels, every "
+         "EditablePartial of the final converter state has all item/items slots filled with references (conv_HS: a "
+         "returning call returns an item, never loses a reference, leaves its partials filled); "
+         "no_empty_placeholder_tree_partial adds, under the same hypothesis: every kept diagram entry's content is a "
+         "reference (conv_KD: an element is extracted only after its own conversion is complete, when its partial is "
+         "filled) and NO returned tree contains the '' placeholder (Tree.hasEmptyStr, the Optional('') of the "
+         "finding). Still partial: noEmptyPlaceholder of the resolved trees also forbids rawNone, which on a filled "
+         "heap can only come from resolve's fuel |heap|+1 running out or a dangling reference - no_dangling_reference (FULL strength: all "
+         "grammars, options, roots, fuels) proves that every reference in a partial and every kept diagram content "
+         "points into the heap, so only the fuel bound (acyclicity of the partial heap) is not proved; "
+         "no_empty_placeholder_of_acyclic_partial derives the tree-level clause noEmptyPlaceholder from exactly that "
+         "missing fact, stated as a decidable check (heapAcyclicB) of the final converter state. "
+         "tokens_covered and the tree-level no_empty_placeholder are NOT proved in "
          "general: they are decided by the oracle on the real code over generated grammars and by the "
          "model-vs-code correspondence.",
     note="Trusted: Lean kernel; axioms propext/Classical.choice/Quot.sound; the transcription of "
@@ -62,6 +88,17 @@ THEOREMS = [
     "PP.Diagram.unnamed_forward_root_witness",
     "PP.Diagram.root_not_first_witness",
     "PP.Diagram.named_cycle_ok",
+    "PP.Diagram.links_resolve_partial",
+    "PP.Diagram.root_first_partial",
+    "PP.Diagram.root_first_unnamed_partial",
+    "PP.Diagram.no_empty_placeholder_partial",
+    "PP.Diagram.no_empty_placeholder_output_partial",
+    "PP.Diagram.no_empty_placeholder_tree_partial",
+    "PP.Diagram.no_dangling_reference",
+    "PP.Diagram.no_empty_placeholder_of_acyclic_partial",
+    "PP.Diagram.conv_HS",
+    "PP.Diagram.conv_KD",
+    "PP.Diagram.conv_step",
 ]
 
 STUB_DIR = Path(__file__).resolve().parent.parent / "railroad_stub"
@@ -838,7 +875,8 @@ def _how(case, opts):
 def run(ctx):
     pp, D, stub = load_diagram()
     ok_proof = ctx.proof_leg("PPProofs.Props.C20", THEOREMS,
-                             generated={"PPProofs/Props/Gen/C20Witness.lean": gen_witness_lean()})
+                             generated={"PPProofs/Props/Gen/C20Witness.lean": gen_witness_lean()},
+                             extra_modules=("PPProofs.Props.C20Links",))
     ctx.rule.append(
         "random grammar programs (2-4 token leaves from 13 kinds, 0-2 Forwards, Empty/Tag, `size` composites over "
         "And/MatchFirst/Or/Each/+/-/Opt/ZeroOrMore/OneOrMore/Group/Suppress/Combine/Dict/NotAny/FollowedBy/"
